@@ -266,6 +266,7 @@ func checkC04(c *Ctx, r *Result, tier string) {
 	checkErrorLoss(c, r, "R04a")
 	c04Try(c, r)
 	c04Loop(c, r)
+	c04LoopSignals(c, r)
 }
 
 // c04Try: the Eval method which tests a child's Name against "finally".
@@ -772,4 +773,122 @@ func errorClassifiers(c *Ctx) map[*ssa.Function]bool {
 		}
 	}
 	return classifiers
+}
+
+// ---- R04h: a loop consumes its own signals ---------------------------------------------------------
+
+// break and continue leave the loop body as errors (ErrEndOfIteration / ErrContinueIteration).
+// The loop runtime has to take them out of the error channel again. Structurally: on every path
+// from the evaluation of the loop body to a return of the function that returns that very error
+// value, the error was compared with the end-of-iteration sentinel (the break check) — otherwise
+// a `break` reaches the caller as a failure.
+func c04LoopSignals(c *Ctx, r *Result) {
+	rtIface := c.Interface("parser", "Runtime")
+	pt, err := ExtractProviders(c)
+	if err != nil || rtIface == nil {
+		return
+	}
+	loopT := pt.Kind2Type["loop"]
+	if loopT == nil {
+		return
+	}
+	isSentinelCmp := func(in ssa.Instruction, name string) bool {
+		bo, ok := in.(*ssa.BinOp)
+		if !ok || (bo.Op != token.EQL && bo.Op != token.NEQ) {
+			return false
+		}
+		for _, v := range []ssa.Value{bo.X, bo.Y} {
+			if u, ok := v.(*ssa.UnOp); ok {
+				if g, ok := u.X.(*ssa.Global); ok && g.Name() == name {
+					return true
+				}
+			}
+		}
+		return false
+	}
+	n := 0
+	for _, fn := range c.ModFuncs() {
+		if fn.Signature.Recv() == nil || namedOf(fn.Signature.Recv().Type()) != loopT || fn.Parent() != nil {
+			continue
+		}
+		// body evaluations: Eval invoked on Children[1].Runtime inside a loop
+		type be struct {
+			call *ssa.Call
+			errV ssa.Value
+		}
+		var bodies []be
+		allInstrs(fn, func(in ssa.Instruction) {
+			call, ok := in.(*ssa.Call)
+			if !ok || !call.Call.IsInvoke() || call.Call.Method.Name() != "Eval" || !types.Identical(call.Call.Value.Type().Underlying(), rtIface) {
+				return
+			}
+			if !inLoop(in.Block()) || !strings.Contains(accessPath(call.Call.Value), "Children[1].Runtime") {
+				return
+			}
+			if ev := errValueOf(call, 1); ev != nil {
+				bodies = append(bodies, be{call, ev})
+			}
+		})
+		if len(bodies) == 0 {
+			continue
+		}
+		key := c.FuncKey(fn)
+		errIdx := -1
+		for i := 0; i < fn.Signature.Results().Len(); i++ {
+			if fn.Signature.Results().At(i).Type().String() == "error" {
+				errIdx = i
+			}
+		}
+		if errIdx < 0 {
+			continue
+		}
+		bad := map[int]bool{}
+		o := &PathOracle{}
+		o.Visit = func(st *PState, in ssa.Instruction) {
+			for i, b := range bodies {
+				if in == ssa.Instruction(b.call) {
+					st.Flags[fmt.Sprint("body:", i)] = true
+					delete(st.Flags, fmt.Sprint("brk:", i))
+				}
+			}
+			if isSentinelCmp(in, "ErrEndOfIteration") {
+				for i := range bodies {
+					if st.Flags[fmt.Sprint("body:", i)] {
+						st.Flags[fmt.Sprint("brk:", i)] = true
+					}
+				}
+			}
+		}
+		o.AtReturn = func(st *PState, ret *ssa.Return) {
+			if errIdx >= len(ret.Results) {
+				return
+			}
+			rv := st.canon(ret.Results[errIdx])
+			for i, b := range bodies {
+				if !st.Flags[fmt.Sprint("body:", i)] || st.Flags[fmt.Sprint("brk:", i)] {
+					continue
+				}
+				if rv == st.canon(b.errV) && st.Get(b.errV, o) != AvNil {
+					bad[i] = true
+				}
+			}
+		}
+		if !ExplorePaths(fn, o) {
+			r.Undecide("R04h: path exploration of %s exceeded its state bound", key)
+			continue
+		}
+		for i, b := range bodies {
+			n++
+			site := fmt.Sprintf("%s#loop-body#%d", key, i)
+			pos := c.Pos(c.InstrPos(b.call))
+			if bad[i] {
+				r.Instance("R04h", site, pos, "finding", "the body's error can be returned without the break check", true)
+				r.Report(Finding{Rule: "R04h", Site: site, Pos: pos,
+					Msg: key + ": the error of the loop body can be returned to the caller on a path that never compares it with the end-of-iteration signal: `break` leaves the loop but is then reported as the error \"End of iteration was reached\" — `for a < 3 { a := a + 1; break }` fails instead of ending the loop"})
+			} else {
+				r.Instance("R04h", site, pos, "ok", "every path returning the body's error has compared it with the end-of-iteration signal", true)
+			}
+		}
+	}
+	r.Floor("R04h", n, 2)
 }
